@@ -5,9 +5,11 @@ import JRV.Model.Backend
 import JRV.Model.Payload
 import JRV.Model.Headers
 import JRV.Model.Wire
+import JRV.Model.ConfigHeap
 import JRV.Generated
 import JRV.Driver
 import JRV.Properties.C06
+import JRV.Properties.C13
 import JRV.Properties.C14
 import JRV.Properties.C17
 import JRV.Properties.C18
